@@ -220,6 +220,14 @@ Proof.
   destruct Hin as [->|Hin]; [congruence|auto].
 Qed.
 
+Lemma foldM_renum_gen {S} (step : S -> nat * string -> res S) f :
+  (forall st ln, step st (on_fst f ln) = emap f (fun x => x) (step st ln)) ->
+  forall l st, foldM step (map (on_fst f) l) st = emap f (fun x => x) (foldM step l st).
+Proof.
+  intros H. induction l as [|ln r IH]; intros st; simpl; [reflexivity|].
+  rewrite H. destruct (step st ln); simpl; auto.
+Qed.
+
 Lemma foldM_Err {A S} (f : S -> A -> res S) l s n k :
   foldM f l s = Err n k -> exists s' x, In x l /\ f s' x = Err n k.
 Proof.
@@ -372,9 +380,13 @@ Section Merchants.
     rewrite IH. destruct (mapM (build_rule pyparse) r); reflexivity.
   Qed.
 
-  Lemma fold_pre_step_renum f pre st :
-    fold_left pre_step (map (on_fst f) pre) st = fold_left pre_step pre st.
-  Proof. revert st. induction pre as [|ln r IH]; intros st; simpl; [reflexivity|]. apply IH. Qed.
+  Lemma pre_step_renum f st ln :
+    pre_step pyparse st (on_fst f ln) = emap f (fun x => x) (pre_step pyparse st ln).
+  Proof.
+    destruct st as [vars tr]. unfold pre_step, on_fst; simpl.
+    destruct (asg_of (snd ln)) as [[lhs rhs]|]; [|reflexivity].
+    destruct (pyparse rhs); [|reflexivity]. destruct (String.prefix "field." lhs); reflexivity.
+  Qed.
 
   Lemma parse_m_numbered_renum f nl :
     parse_m_numbered pyparse (map (on_fst f) nl) = renum_m f (parse_m_numbered pyparse nl).
@@ -384,7 +396,8 @@ Section Merchants.
       with (map (on_fst f) (map (fun p => (fst p, classify_m (snd p))) nl))
       by (rewrite !map_map; reflexivity).
     rewrite group_map. destruct (group _) as [pre secs]. unfold gmap; simpl.
-    rewrite fold_pre_step_renum. destruct (fold_left pre_step pre ([], [])) as [vars tr].
+    rewrite (foldM_renum_gen _ f (pre_step_renum f)).
+    destruct (foldM (pre_step pyparse) pre ([], [])) as [vt|]; simpl; [|reflexivity].
     rewrite mapM_build_rule_renum. destruct (mapM (build_rule pyparse) secs); reflexivity.
   Qed.
 
@@ -556,7 +569,7 @@ Section MerchantsSection.
     intros Hh Hc Hc' Hs. unfold parse_m_numbered. fold tk. rewrite !map_app.
     destruct (group_app_hdr _ Hh) as (pre1 & s1 & n0 & name & p & E).
     rewrite !E, (group_contents _ _ Hc), (group_contents _ _ Hc'). cbn [fst snd].
-    destruct (fold_left pre_step pre1 ([], [])) as [vars tr].
+    apply sim_bind_r. intros vt.
     apply sim_bind. apply mapM_replace_sim. apply build_replace_sim. exact Hs.
   Qed.
 
@@ -580,7 +593,7 @@ Section MerchantsSection.
     intros Hh Hc Hc' Hs. unfold parse_m_numbered. fold tk. rewrite !map_app.
     destruct (group_app_hdr _ Hh) as (pre1 & s1 & n0 & name & p & E).
     rewrite !E, (group_contents _ _ Hc), (group_contents _ _ Hc'). cbn [fst snd].
-    destruct (fold_left pre_step pre1 ([], [])) as [vars tr].
+    apply bind_ext. intros vt.
     f_equal. rewrite !mapM_app. apply bind_ext. intros a. f_equal. cbn [mapM]. f_equal.
     unfold build_rule. destruct (is_empty name); [reflexivity|]. f_equal.
     rewrite !foldM_app. apply bind_ext. intros st. rewrite !foldM_app. now rewrite Hs.
@@ -1019,6 +1032,8 @@ Qed.
 
 Definition sections_m (ls : list string) : list section :=
   snd (group (map (fun p => (fst p, classify_m (snd p))) (number 1 ls))).
+Definition preamble_m (ls : list string) : list (nat * string) :=
+  fst (group (map (fun p => (fst p, classify_m (snd p))) (number 1 ls))).
 Definition sections_v (ls : list string) : list section :=
   snd (group (map (fun p => (fst p, classify_v (snd p))) (number 1 ls))).
 
@@ -1202,26 +1217,65 @@ Section FileLevel.
     Forall2 (fun sec r => build_rule pyparse sec = Ok r) (sections_m ls) (m_rules f).
   Proof.
     unfold parse_merchants, parse_m_numbered, sections_m.
-    destruct (group _) as [pre secs]. destruct (fold_left pre_step pre ([], [])) as [vars tr].
+    destruct (group _) as [pre secs]. destruct (foldM (pre_step pyparse) pre ([], [])) as [vt|]; [|discriminate].
+    cbn [bind snd].
     destruct (mapM (build_rule pyparse) secs) as [rules|] eqn:E; [|discriminate].
     intros H; inversion H; subst; cbn. now apply mapM_Ok.
   Qed.
 
-  Lemma parse_m_err_sections ls n k :
-    parse_merchants pyparse ls = Err n k -> exists sec, In sec (sections_m ls) /\ build_rule pyparse sec = Err n k.
+  Definition pre_check (s : string) : option ekind :=
+    match asg_of s with
+    | Some (_, rhs) => if pyparse rhs then None else Some EInvalidTop
+    | None => Some EOutside
+    end.
+
+  Lemma pre_step_split st ln :
+    (exists st', pre_step pyparse st ln = Ok st' /\ pre_check (snd ln) = None) \/
+    (exists k, pre_step pyparse st ln = Err (fst ln) k /\ pre_check (snd ln) = Some k).
   Proof.
-    unfold parse_merchants, parse_m_numbered, sections_m.
-    destruct (group _) as [pre secs]. destruct (fold_left pre_step pre ([], [])) as [vars tr].
-    destruct (mapM (build_rule pyparse) secs) as [rules|] eqn:E; [discriminate|].
-    intros H; inversion H; subst; cbn. now apply mapM_Err.
+    destruct st as [vars tr]. unfold pre_step, pre_check.
+    destruct (asg_of (snd ln)) as [[lhs rhs]|]; [|right; eauto].
+    destruct (pyparse rhs); [|right; eauto]. left.
+    destruct (String.prefix "field." lhs); eauto.
+  Qed.
+
+  Lemma parse_m_err_sections ls n k :
+    parse_merchants pyparse ls = Err n k ->
+    (exists s, In (n, s) (preamble_m ls) /\ pre_check s = Some k) \/
+    (exists sec, In sec (sections_m ls) /\ build_rule pyparse sec = Err n k).
+  Proof.
+    unfold parse_merchants, parse_m_numbered, sections_m, preamble_m.
+    destruct (group _) as [pre secs]. cbn [fst snd].
+    destruct (foldM (pre_step pyparse) pre ([], [])) as [vt|n' k'] eqn:F; cbn [bind].
+    - destruct (mapM (build_rule pyparse) secs) as [rules|] eqn:E; [discriminate|].
+      intros H; inversion H; subst; cbn. right. now apply mapM_Err.
+    - intros H; inversion H; subst. left.
+      apply foldM_Err in F as (st' & [n' s] & Hin & E).
+      destruct (pre_step_split st' (n', s)) as [(st2 & E2 & _)|(k2 & E2 & C)]; [congruence|].
+      rewrite E2 in E. inversion E; subst. cbn [fst snd] in *. eauto.
+  Qed.
+
+  (* an accepted file has only valid assignments before its first header *)
+  Lemma parse_m_preamble_ok ls :
+    is_ok (parse_merchants pyparse ls) = true -> Forall (fun ln => pre_check (snd ln) = None) (preamble_m ls).
+  Proof.
+    unfold parse_merchants, parse_m_numbered, preamble_m.
+    destruct (group _) as [pre secs]. cbn [fst].
+    destruct (foldM (pre_step pyparse) pre ([], [])) as [vt|] eqn:F; [|discriminate]. intros _.
+    revert F. generalize (([], []) : dict string * list (string * string)).
+    induction pre as [|ln r IH]; intros st F; constructor.
+    - cbn [foldM] in F. destruct (pre_step_split st ln) as [(st2 & E2 & C)|(k2 & E2 & C)]; [exact C|].
+      rewrite E2 in F. discriminate F.
+    - cbn [foldM] in F. destruct (pre_step pyparse st ln) as [st2|] eqn:E; [|discriminate F]. eapply IH; eauto.
   Qed.
 
   Lemma parse_m_bad_section ls sec n k :
     In sec (sections_m ls) -> build_rule pyparse sec = Err n k -> is_ok (parse_merchants pyparse ls) = false.
   Proof.
     unfold parse_merchants, parse_m_numbered, sections_m.
-    destruct (group _) as [pre secs]. destruct (fold_left pre_step pre ([], [])) as [vars tr]. cbn [snd].
-    intros Hin Hb. pose proof (mapM_some_Err _ _ _ _ _ Hin Hb) as E.
+    destruct (group _) as [pre secs]. cbn [snd].
+    intros Hin Hb. destruct (foldM (pre_step pyparse) pre ([], [])); [|reflexivity]. cbn [bind].
+    pose proof (mapM_some_Err _ _ _ _ _ Hin Hb) as E.
     destruct (mapM (build_rule pyparse) secs); [discriminate E|reflexivity].
   Qed.
 
@@ -1469,20 +1523,27 @@ Section Reject.
   (* ---- naming: what an error of a given kind says about the line it carries ---- *)
   Lemma m_err_names_line ls n k :
     parse_merchants pyparse ls = Err n k ->
+    (exists s, In (n, s) (preamble_m ls) /\ pre_check pyparse s = Some k) \/
     exists n0 name ps, In (n0, name, ps) (sections_m ls) /\
       ((k = EEmptyName /\ n = n0 /\ name = EmptyString) \/
        (exists s, In (n, s) ps /\ prop_check s = Some k) \/
        (n = n0 /\ exists pr, foldM apply_prop ps prule0 = Ok pr /\ finish_defect pr k)).
   Proof.
-    intros H. apply parse_m_err_sections in H as ([[n0 name] ps] & Hin & B).
-    exists n0, name, ps. split; [exact Hin|]. now apply build_rule_err.
+    intros H. apply parse_m_err_sections in H as [P|([[n0 name] ps] & Hin & B)]; [left; exact P|].
+    right. exists n0, name, ps. split; [exact Hin|]. now apply build_rule_err.
+  Qed.
+
+  Lemma pre_check_kinds s k : pre_check pyparse s = Some k -> k = EInvalidTop \/ k = EOutside.
+  Proof.
+    unfold pre_check. destruct (asg_of s) as [[lhs rhs]|]; [destruct (pyparse rhs)|]; intros H; inversion H; auto.
   Qed.
 
   Lemma m_missing_match_names_section ls n :
     parse_merchants pyparse ls = Err n EMissingMatch ->
     exists name ps, In (n, name, ps) (sections_m ls) /\ last_of KMatch (kvs ps) = None.
   Proof.
-    intros H. apply m_err_names_line in H as (n0 & name & ps & Hin & [(E & _)|[(s & _ & C)|(-> & pr & F & D)]]).
+    intros H. apply m_err_names_line in H as [(s0 & _ & C0)|(n0 & name & ps & Hin & [(E & _)|[(s & _ & C)|(-> & pr & F & D)]])].
+    - apply pre_check_kinds in C0 as [E|E]; discriminate E.
     - discriminate E.
     - apply prop_check_kinds in C as [[E _]|(? & ? & _ & [[E _]|[[E _]|[[E _]|[E _]]]])]; discriminate E.
     - exists name, ps. split; [exact Hin|]. inversion D as [M| | | |]; subst.
@@ -1500,7 +1561,8 @@ Section Reject.
     parse_merchants pyparse ls = Err n k ->
     exists n0 name ps s, In (n0, name, ps) (sections_m ls) /\ In (n, s) ps /\ prop_check s = Some k.
   Proof.
-    intros Hk H. apply m_err_names_line in H as (n0 & name & ps & Hin & [(E & _)|[(s & Hs & C)|(-> & pr & F & D)]]).
+    intros Hk H. apply m_err_names_line in H as [(s0 & _ & C0)|(n0 & name & ps & Hin & [(E & _)|[(s & Hs & C)|(-> & pr & F & D)]])].
+    - apply pre_check_kinds in C0 as [E|E]; subst; repeat destruct Hk as [Hk|Hk]; discriminate Hk.
     - subst. repeat destruct Hk as [Hk|Hk]; discriminate Hk.
     - exists n0, name, ps, s. auto.
     - apply finish_defect_line_kinds in D.
@@ -1516,7 +1578,8 @@ Section Reject.
        (k = EInvalidField /\ exists x, In (x, e) (dict_of [] (fields_of (kvs ps)))) \/
        (k = EInvalidMatch /\ last_of KMatch (kvs ps) = Some e)).
   Proof.
-    intros Hk H. apply m_err_names_line in H as (n0 & name & ps & Hin & [(E & _)|[(s & Hs & C)|(-> & pr & F & D)]]).
+    intros Hk H. apply m_err_names_line in H as [(s0 & _ & C0)|(n0 & name & ps & Hin & [(E & _)|[(s & Hs & C)|(-> & pr & F & D)]])].
+    - apply pre_check_kinds in C0 as [E|E]; subst; repeat destruct Hk as [Hk|Hk]; discriminate Hk.
     - subst. repeat destruct Hk as [Hk|Hk]; discriminate Hk.
     - apply prop_check_kinds in C as [[E _]|(? & ? & _ & [[E _]|[[E _]|[[E _]|[E _]]]])]; subst;
         repeat destruct Hk as [Hk|Hk]; discriminate Hk.
@@ -1639,34 +1702,49 @@ Section NoDrop.
   Let tk := fun p : nat * string => (fst p, classify_m (snd p)).
   Let tkv := fun p : nat * string => (fst p, classify_v (snd p)).
 
-  (* inside a section the garbage line is an error at its own line number *)
+  (* the garbage line is an error at its own line number, wherever it stands *)
+  Lemma m_garbage_anywhere l1 l l2 :
+    is_ok (parse_merchants pyparse (l1 ++ l :: l2)) = true ->
+    parse_merchants pyparse (l1 ++ garbage :: l2)
+    = Err (S (length l1)) (if in_section l1 then EUnexpected else EOutside).
+  Proof.
+    intros Hok. unfold parse_merchants in *. rewrite !number_app in *. cbn [number] in *.
+    unfold parse_m_numbered in *. fold tk in Hok. fold tk. rewrite !map_app in *. cbn [map] in *.
+    assert (Hs : has_header (map tk (number 1 l1)) = in_section l1) by (unfold tk; apply has_header_number).
+    destruct (has_header (map tk (number 1 l1))) eqn:Hh; rewrite <- Hs.
+    - destruct (group_app_hdr _ Hh) as (pre1 & s1 & n0 & name & p & E).
+      rewrite E in *. clear E.
+      destruct (foldM (pre_step pyparse) pre1 ([], [])) as [vt|]; [|discriminate Hok]. cbn [bind] in *.
+      assert (Hm : is_ok (mapM (build_rule pyparse)
+                 (s1 ++ (n0, name, p ++ fst (group (tk (1 + length l1, l) :: map tk (number (S (1 + length l1)) l2))))
+                     :: snd (group (tk (1 + length l1, l) :: map tk (number (S (1 + length l1)) l2))))) = true).
+      { destruct (mapM _ _); [reflexivity|discriminate Hok]. }
+      destruct (mapM_prefix_ok _ _ _ Hm) as [a Ha].
+      apply mapM_suffix_ok in Hm. apply mapM_head_ok in Hm as [r Hr].
+      unfold build_rule in Hr. destruct (is_empty name) eqn:En; [discriminate Hr|].
+      assert (Hf : exists st, foldM apply_prop p prule0 = Ok st).
+      { apply (foldM_prefix_ok _ p (fst (group (tk (1 + length l1, l) :: map tk (number (S (1 + length l1)) l2))))).
+        destruct (foldM apply_prop _ prule0); [reflexivity|discriminate Hr]. }
+      destruct Hf as [st Hst].
+      unfold tk at 1. cbn [fst snd group]. change (classify_m garbage) with (Content garbage).
+      destruct (group (map tk (number (S (1 + length l1)) l2))) as [q s2]. cbn [fst snd].
+      rewrite (mapM_err_at _ s1 a _ _ (1 + length l1) EUnexpected Ha); [reflexivity|].
+      unfold build_rule. rewrite En, foldM_app, Hst. cbn [bind foldM]. reflexivity.
+    - rewrite !(group_app_nohdr _ _ Hh) in *. cbn [fst snd] in *.
+      assert (Hf : exists g, foldM (pre_step pyparse) (contents (map tk (number 1 l1))) ([], []) = Ok g).
+      { apply (foldM_prefix_ok _ _ (fst (group (tk (1 + length l1, l) :: map tk (number (S (1 + length l1)) l2))))).
+        destruct (foldM (pre_step pyparse) _ ([], [])); [reflexivity|discriminate Hok]. }
+      destruct Hf as [[vars tr] Hg].
+      unfold tk at 2. cbn [fst snd group]. change (classify_m garbage) with (Content garbage).
+      destruct (group (map tk (number (S (1 + length l1)) l2))) as [q s2]. cbn [fst snd].
+      rewrite foldM_app, Hg. cbn [bind foldM]. reflexivity.
+  Qed.
+
   Lemma m_garbage_in_section l1 l l2 :
     in_section l1 = true ->
     is_ok (parse_merchants pyparse (l1 ++ l :: l2)) = true ->
     parse_merchants pyparse (l1 ++ garbage :: l2) = Err (S (length l1)) EUnexpected.
-  Proof.
-    intros Hin Hok. unfold parse_merchants in *. rewrite !number_app in *. cbn [number] in *.
-    unfold parse_m_numbered in *. fold tk in Hok. fold tk. rewrite !map_app in *. cbn [map] in *.
-    assert (Hh : has_header (map tk (number 1 l1)) = true) by (unfold tk; now rewrite has_header_number).
-    destruct (group_app_hdr _ Hh) as (pre1 & s1 & n0 & name & p & E).
-    rewrite E in *. clear E.
-    destruct (fold_left pre_step pre1 ([], [])) as [vars tr].
-    assert (Hm : is_ok (mapM (build_rule pyparse)
-               (s1 ++ (n0, name, p ++ fst (group (tk (1 + length l1, l) :: map tk (number (S (1 + length l1)) l2))))
-                   :: snd (group (tk (1 + length l1, l) :: map tk (number (S (1 + length l1)) l2))))) = true).
-    { destruct (mapM _ _); [reflexivity|discriminate Hok]. }
-    destruct (mapM_prefix_ok _ _ _ Hm) as [a Ha].
-    apply mapM_suffix_ok in Hm. apply mapM_head_ok in Hm as [r Hr].
-    unfold build_rule in Hr. destruct (is_empty name) eqn:En; [discriminate Hr|].
-    assert (Hf : exists st, foldM apply_prop p prule0 = Ok st).
-    { apply (foldM_prefix_ok _ p (fst (group (tk (1 + length l1, l) :: map tk (number (S (1 + length l1)) l2))))).
-      destruct (foldM apply_prop _ prule0); [reflexivity|discriminate Hr]. }
-    destruct Hf as [st Hst].
-    unfold tk at 1. cbn [fst snd group]. change (classify_m garbage) with (Content garbage).
-    destruct (group (map tk (number (S (1 + length l1)) l2))) as [q s2]. cbn [fst snd].
-    rewrite (mapM_err_at _ s1 a _ _ (1 + length l1) EUnexpected Ha); [reflexivity|].
-    unfold build_rule. rewrite En, foldM_app, Hst. cbn [bind foldM]. reflexivity.
-  Qed.
+  Proof. intros Hin Hok. rewrite (m_garbage_anywhere l1 l l2 Hok), Hin. reflexivity. Qed.
 
   (* views: anywhere in the file *)
   Lemma v_garbage_anywhere l1 l l2 :
@@ -1713,16 +1791,20 @@ Section Load.
   Variable csv_rules : list string -> list string.
 
   Lemma get_all_rules_ok ls f :
-    parse_merchants pyparse ls = Ok f -> get_all_rules pyparse csv_rules ls = Loaded (map r_name (m_rules f)).
-  Proof. unfold get_all_rules. now intros ->. Qed.
-
-  (* the swallow: a parse error is turned into whatever the CSV reader makes of the same file *)
-  Lemma get_all_rules_err ls n k :
-    parse_merchants pyparse ls = Err n k ->
-    get_all_rules pyparse csv_rules ls = Loaded (csv_rules ls) /\ get_transforms pyparse ls = [].
+    parse_merchants pyparse ls = Ok f ->
+    get_all_rules pyparse csv_rules ls = {| lr_value := map r_name (m_rules f); lr_reported := None |} /\
+    get_transforms pyparse ls = {| lr_value := m_transforms f; lr_reported := None |}.
   Proof. unfold get_all_rules, get_transforms. now intros ->. Qed.
 
-  Lemma load_views_err ls n k : parse_views pyparse ls = Err n k -> load_views pyparse ls = Reported n.
+  (* a parse error reaches the user, with its line, from both loaders (which then carry on without rules) *)
+  Lemma get_all_rules_err ls n k :
+    parse_merchants pyparse ls = Err n k ->
+    get_all_rules pyparse csv_rules ls = {| lr_value := csv_rules ls; lr_reported := Some n |} /\
+    get_transforms pyparse ls = {| lr_value := []; lr_reported := Some n |}.
+  Proof. unfold get_all_rules, get_transforms. now intros ->. Qed.
+
+  Lemma load_views_err ls n k :
+    parse_views pyparse ls = Err n k -> load_views pyparse ls = {| lr_value := []; lr_reported := Some n |}.
   Proof. unfold load_views. now intros ->. Qed.
 End Load.
 
@@ -1828,8 +1910,6 @@ End Layout.
 (* ========================================================================================== *)
 (* L. every expression of a file                                                                *)
 
-Definition preamble_m (ls : list string) : list (nat * string) :=
-  fst (group (map (fun p => (fst p, classify_m (snd p))) (number 1 ls))).
 Definition preamble_exprs (ls : list string) : list string :=
   flat_map (fun p => match asg_of (snd p) with Some (_, rhs) => [rhs] | None => [] end) (preamble_m ls).
 Definition section_exprs (sec : section) : list string :=
@@ -1854,6 +1934,25 @@ Proof.
     + pose proof (forallb_in _ _ _ PL Hin) as Y. cbn in Y, Hp. congruence.
     + pose proof (forallb_in _ _ _ PF Hin) as Y. cbn in Y, Hp. congruence.
   - eapply parse_m_bad_section; eauto.
+Qed.
+
+Lemma m_reject_invalid_top_expr pyparse ls e :
+  In e (preamble_exprs ls) -> pyparse e = false -> is_ok (parse_merchants pyparse ls) = false.
+Proof.
+  intros He Hp. destruct (is_ok (parse_merchants pyparse ls)) eqn:O; [|reflexivity]. exfalso.
+  apply parse_m_preamble_ok in O. rewrite Forall_forall in O.
+  unfold preamble_exprs in He. apply in_flat_map in He as (ln & Hin & He).
+  specialize (O ln Hin). unfold pre_check in O.
+  destruct (asg_of (snd ln)) as [[lhs rhs]|]; [|destruct He].
+  destruct He as [<-|[]]. rewrite Hp in O. discriminate O.
+Qed.
+
+Lemma m_reject_invalid_expr pyparse ls e :
+  In e (file_exprs_m ls) -> pyparse e = false -> is_ok (parse_merchants pyparse ls) = false.
+Proof.
+  unfold file_exprs_m. intros He Hp. apply in_app_or in He as [He|He].
+  - eapply m_reject_invalid_top_expr; eauto.
+  - apply in_flat_map in He as (sec & Hs & He). eapply m_reject_invalid_section_expr; eauto.
 Qed.
 
 (* ========================================================================================== *)
@@ -2040,25 +2139,6 @@ Proof.
   - intros n. apply m_line_error_names_line. auto 6.
 Qed.
 
-Lemma c17_reject_invalid_expression_partial_holds :
-  forall pyparse ls,
-    (forall sec e, In sec (sections_m ls) -> In e (section_exprs sec) -> pyparse e = false ->
-       is_ok (parse_merchants pyparse ls) = false) /\
-    (forall n k, k = EInvalidLet \/ k = EInvalidField \/ k = EInvalidMatch ->
-       parse_merchants pyparse ls = Err n k ->
-       exists name ps e, In (n, name, ps) (sections_m ls) /\ pyparse e = false /\
-         ((k = EInvalidLet /\ exists x, In (x, e) (lets_of (kvs ps))) \/
-          (k = EInvalidField /\ exists x, In (x, e) (dict_of [] (fields_of (kvs ps)))) \/
-          (k = EInvalidMatch /\ last_of KMatch (kvs ps) = Some e))) /\
-    (* views files: every filter and every variable, global or local, is validated at its own line *)
-    (forall n0 name lines n s k, In (n0, name, lines) (sections_v ls) -> In (n, s) lines ->
-       vline_check pyparse s = Some k -> is_ok (parse_views pyparse ls) = false).
-Proof.
-  intros pyparse ls. split; [|split].
-  - intros sec e. exact (m_reject_invalid_section_expr pyparse ls sec e).
-  - exact (m_invalid_expr_names_section pyparse ls).
-  - exact (v_reject_bad_line pyparse ls).
-Qed.
 
 Lemma c17_reject_missing_filter_holds :
   forall pyparse ls,
@@ -2070,24 +2150,83 @@ Proof.
   intros pyparse ls. split; [exact (v_reject_missing_filter pyparse ls)|exact (v_missing_filter_names_section pyparse ls)].
 Qed.
 
-Lemma c17_no_silent_drop_partial_holds :
+
+
+(* ---- the three statements that the unfixed tree refuted (see known_findings.d/C17.jsonl, status fixed) ---- *)
+Definition no_silent_drop_statement : Prop :=
   forall pyparse l1 l l2,
-    (in_section l1 = true -> is_ok (parse_merchants pyparse (l1 ++ l :: l2)) = true ->
-     parse_merchants pyparse (l1 ++ garbage :: l2) = Err (S (length l1)) EUnexpected) /\
+    classify_m l <> Skip -> is_ok (parse_merchants pyparse (l1 ++ l :: l2)) = true ->
+    parse_merchants pyparse (l1 ++ garbage :: l2) <> parse_merchants pyparse (l1 ++ l :: l2).
+
+Lemma c17_no_silent_drop_holds : no_silent_drop_statement.
+Proof.
+  intros pyparse l1 l l2 _ Hok E. rewrite (m_garbage_anywhere pyparse l1 l l2 Hok) in E.
+  rewrite <- E in Hok. discriminate Hok.
+Qed.
+
+Lemma c17_no_silent_drop_exact_holds :
+  forall pyparse l1 l l2,
+    (is_ok (parse_merchants pyparse (l1 ++ l :: l2)) = true ->
+     parse_merchants pyparse (l1 ++ garbage :: l2)
+     = Err (S (length l1)) (if in_section l1 then EUnexpected else EOutside)) /\
     (is_ok (parse_views pyparse (l1 ++ l :: l2)) = true ->
      parse_views pyparse (l1 ++ garbage :: l2) = Err (S (length l1)) VUnexpected).
 Proof.
-  intros pyparse l1 l l2. split; [exact (m_garbage_in_section pyparse l1 l l2)|exact (v_garbage_anywhere pyparse l1 l l2)].
+  intros pyparse l1 l l2. split; [exact (m_garbage_anywhere pyparse l1 l l2)|exact (v_garbage_anywhere pyparse l1 l l2)].
 Qed.
 
-Lemma c17_load_error_is_reported_partial_holds :
+Definition reject_invalid_expression_statement : Prop :=
+  forall pyparse ls e, In e (file_exprs_m ls) -> pyparse e = false -> is_ok (parse_merchants pyparse ls) = false.
+
+Lemma c17_reject_invalid_expression_holds : reject_invalid_expression_statement.
+Proof. exact m_reject_invalid_expr. Qed.
+
+Lemma c17_invalid_expression_names_line_holds :
+  forall pyparse ls,
+    (* a top-level assignment: the error names that very line *)
+    (forall n, parse_merchants pyparse ls = Err n EInvalidTop ->
+       exists s, In (n, s) (preamble_m ls) /\ pre_check pyparse s = Some EInvalidTop) /\
+    (* an expression of a section: the error names the section header *)
+    (forall n k, k = EInvalidLet \/ k = EInvalidField \/ k = EInvalidMatch ->
+       parse_merchants pyparse ls = Err n k ->
+       exists name ps e, In (n, name, ps) (sections_m ls) /\ pyparse e = false /\
+         ((k = EInvalidLet /\ exists x, In (x, e) (lets_of (kvs ps))) \/
+          (k = EInvalidField /\ exists x, In (x, e) (dict_of [] (fields_of (kvs ps)))) \/
+          (k = EInvalidMatch /\ last_of KMatch (kvs ps) = Some e))) /\
+    (* views files: every filter and every variable, global or local, is validated at its own line *)
+    (forall n0 name lines n s k, In (n0, name, lines) (sections_v ls) -> In (n, s) lines ->
+       vline_check pyparse s = Some k -> is_ok (parse_views pyparse ls) = false).
+Proof.
+  intros pyparse ls. split; [|split].
+  - intros n H. apply m_err_names_line in H as [P|(n0 & name & ps & Hin & [(E & _)|[(s & _ & C)|(-> & pr & F & D)]])].
+    + exact P.
+    + discriminate E.
+    + apply prop_check_kinds in C as [[E _]|(? & ? & _ & [[E _]|[[E _]|[[E _]|[E _]]]])]; discriminate E.
+    + apply finish_defect_line_kinds in D. repeat destruct D as [D|D]; discriminate D.
+  - exact (m_invalid_expr_names_section pyparse ls).
+  - exact (v_reject_bad_line pyparse ls).
+Qed.
+
+Definition load_error_is_reported_statement : Prop :=
+  forall pyparse csv_rules ls n k,
+    parse_merchants pyparse ls = Err n k ->
+    lr_reported (get_all_rules pyparse csv_rules ls) = Some n /\ lr_reported (get_transforms pyparse ls) = Some n.
+
+Lemma c17_load_error_is_reported_holds : load_error_is_reported_statement.
+Proof.
+  intros pyparse csv_rules ls n k H. destruct (get_all_rules_err pyparse csv_rules ls n k H) as [-> ->]. split; reflexivity.
+Qed.
+
+Lemma c17_load_outcomes_holds :
   forall pyparse csv_rules ls,
     (forall f, parse_merchants pyparse ls = Ok f ->
-       get_all_rules pyparse csv_rules ls = Loaded (map r_name (m_rules f))) /\
+       get_all_rules pyparse csv_rules ls = {| lr_value := map r_name (m_rules f); lr_reported := None |} /\
+       get_transforms pyparse ls = {| lr_value := m_transforms f; lr_reported := None |}) /\
     (forall n k, parse_merchants pyparse ls = Err n k ->
-       get_all_rules pyparse csv_rules ls = Loaded (csv_rules ls) /\ get_transforms pyparse ls = []) /\
-    (* the views file IS reported: load_config turns SectionParseError into a warning entry *)
-    (forall n k, parse_views pyparse ls = Err n k -> load_views pyparse ls = Reported n).
+       get_all_rules pyparse csv_rules ls = {| lr_value := csv_rules ls; lr_reported := Some n |} /\
+       get_transforms pyparse ls = {| lr_value := []; lr_reported := Some n |}) /\
+    (forall n k, parse_views pyparse ls = Err n k ->
+       load_views pyparse ls = {| lr_value := []; lr_reported := Some n |}).
 Proof.
   intros pyparse csv_rules ls. split; [|split].
   - exact (get_all_rules_ok pyparse csv_rules ls).
